@@ -356,6 +356,13 @@ class ProgramGen(object):
             return ['i', rng.randint(3, 12)]
         if r < 0.44:
             return ['i', rng.choice([100, 1000, 65536, 999999, 1000000, rng.randint(13, 10 ** 6)])]
+        if r < 0.50:
+            # trace amounts and multipliers a hair away from a whole number (or from 0): "all non-negative real
+            # multipliers" - hostile to any clean-up of 'floating point noise' with an absolute tolerance
+            k = rng.choice([0, 0, 1, 1, 2, 3, 10, 1000])
+            d = 10 ** rng.uniform(-12, -6.5) * rng.choice([1, 1, -1])
+            v = k + d if k + d > 0 else abs(d)
+            return [rng.choice(['f', 'f', 'nf64']), v]
         if r < 0.79:
             return ['f', 10 ** rng.uniform(-6, 6)]
         if r < 0.88:
